@@ -438,9 +438,20 @@ func vRunPersist(c *vCase) {
 	}
 	// fence so that everything has been taken by the updater; then wait for the next save to complete
 	e.fenceNo++
+	s0 := atomic.LoadInt64(&e.saves)
 	fa := fmt.Sprintf("FENCEP%d_%d", os.Getpid(), e.fenceNo)
-	clientMessageChan <- ClientUpdate{fa, e.fenceNo}
-	live, ok := vDrainWireUntil(c, fa, fmt.Sprint(e.fenceNo))
+	fbody := fmt.Sprint(e.fenceNo)
+	if len(want) > 0 && vChance(r, 0.5) {
+		// the history ends with fresh traffic on a topic that is published but never saved: the save that the
+		// last persistent change scheduled must still happen
+		fa = "TRIGGERRATE"
+		fbody = fmt.Sprintf(`{"CountsSeen":[%d,%d]}`, os.Getpid(), e.fenceNo)
+		clientMessageChan <- ClientUpdate{fa, struct{ CountsSeen []int }{[]int{os.Getpid(), e.fenceNo}}}
+		c.Cov("persist_histories_ending_with_unsaved_topic", 1)
+	} else {
+		clientMessageChan <- ClientUpdate{fa, e.fenceNo}
+	}
+	live, ok := vDrainWireUntil(c, fa, fbody)
 	if !ok {
 		return
 	}
@@ -449,25 +460,17 @@ func vRunPersist(c *vCase) {
 			e.last[m.tag] = m.body
 		}
 	}
-	e.last[fa] = fmt.Sprint(e.fenceNo)
-	s0 := atomic.LoadInt64(&e.saves)
+	e.last[fa] = fbody
+	_ = s0
+	// the values must reach the file: the save delay is 25 ms; poll (bounded) until the file holds them
 	t0 := time.Now()
-	for atomic.LoadInt64(&e.saves) < s0+1 {
-		time.Sleep(2 * time.Millisecond)
-		if time.Since(t0) > 30*time.Second {
-			c.Violate("c16:no-save", "no configuration save happened within 30 s after persistent topics changed (save delay 25 ms)")
-			return
+	for !vPersistCompareQuiet(e.cfgPath, want) {
+		time.Sleep(20 * time.Millisecond)
+		if time.Since(t0) > 15*time.Second {
+			break // report what is wrong with the file below
 		}
 	}
-	// a save that began before the fence may have missed the last updates: wait for one that began after it
-	time.Sleep(60 * time.Millisecond)
-	for i := 0; i < 3; i++ {
-		if vPersistCompareQuiet(e.cfgPath, want) {
-			break
-		}
-		time.Sleep(50 * time.Millisecond)
-	}
-	if vPersistCompare(c, e.cfgPath, want, "after the history") {
+	if vPersistCompare(c, e.cfgPath, want, fmt.Sprintf("%.1f s after a history that ended with %s (save delay 25 ms)", time.Since(t0).Seconds(), fa)) {
 		c.Cov("persist_histories", 1)
 		c.Nontrivial()
 	}
@@ -725,7 +728,7 @@ func init() {
 			Assumptions: []string{"libzmq delivers in order on one connection and loses nothing once the subscription is established (receive high-water mark 0)", "a process kill, not a power loss: data written before the kill are in the page cache",
 				"edge-multi settings are documented as not restored", "NEWDASTARD is an announcement the code documents as not stored"},
 			Guards: map[string]map[string]int{
-				"quick":    {"replays": 60, "replayed_messages": 1000, "republished_values": 200, "persist_histories": 60, "restored_topics_compared": 300, "kills_at_save.begin": 8, "kills_at_save.tmpWritten": 8, "kills_at_save.bakRemoved": 8, "kills_at_save.mainMoved": 8, "kills_at_save.done": 8, "survived_as_old_version": 10, "survived_as_new_version": 10, "syscall_kills": 40, "distinct:syscall_kill_point": 8},
+				"quick":    {"replays": 60, "replayed_messages": 1000, "republished_values": 200, "persist_histories": 60, "persist_histories_ending_with_unsaved_topic": 15, "restored_topics_compared": 300, "kills_at_save.begin": 8, "kills_at_save.tmpWritten": 8, "kills_at_save.bakRemoved": 8, "kills_at_save.mainMoved": 8, "kills_at_save.done": 8, "survived_as_old_version": 10, "survived_as_new_version": 10, "syscall_kills": 40, "distinct:syscall_kill_point": 8},
 				"thorough": {"replays": 800, "persist_histories": 800},
 			}},
 	})
